@@ -320,6 +320,9 @@ func (t *gcTr) translate(name string, fd *ast.FuncDecl) *gcUnit {
 		u.hasRec = true
 		lparams = append(lparams, "(rec_ : GoctyGo.Rec)")
 	}
+	if gcOrdFuncs[name] {
+		lparams = append(lparams, "(ord_ : List String → List String)")
+	}
 	for _, f := range fd.Type.Params.List {
 		sh := gcTypeShape(f.Type, src(f.Type))
 		if len(f.Names) == 0 {
